@@ -327,6 +327,65 @@ class RealRun(Harness):
         return label
 
 
+from props.c18 import MainRun as _MainRun
+
+
+class FileRun(_MainRun):
+    """real main() with the REAL process_commandline reading a targets file of n lines (n = 1 included: a list of one is still a list): with -j stdout is one
+    JSON array with one element per line; in text mode n blocks separated by n-1 rulers; the run ends with the connection-error status (nothing listens)."""
+    prop, ob = PROP, 'O3'
+    conc_json = True
+    keep_printed = True
+
+    def __init__(self, n, json, ported=False):
+        _MainRun.__init__(self, (('host:port',) if ported else ('host',)) * n, False)
+        self.n, self.json, self.ported = n, json, ported
+        self.more_vals = {'json': 1} if json else {}
+        self.name = 'filerun-n%d-%s%s' % (n, 'json' if json else 'text', '-ported' if ported else '')
+
+    def params(self):
+        return {'n': self.n, 'json': self.json, 'ported': self.ported}
+
+    def inputs(self):
+        inp = _MainRun.inputs(self)
+        if self.json and zx.active():
+            # the JSON document renders host and port: keep them to a few representatives (the rendering would otherwise be enumerated value by value)
+            for i, (h, p_) in enumerate(zip(inp['hosts'], inp['ports'])):
+                zx.cur().assume(h == ['aa', 'bb', 'cc'][i])
+                v = zx.shims.z_int(p_)
+                zx.cur().assume(s_or(v == 22, v == 23))
+        return inp
+
+    def run(self, M, inp):
+        obs = _MainRun.run(self, M, inp)
+        printed = obs.pop('printed')
+        res = {'ret': obs['ret'], 'ndialled': len(obs['dialled'])}
+        if self.json:
+            try:
+                v = _json.loads(printed)
+                res['json_len'] = len(v) if isinstance(v, list) else -1
+                res['elements_are_objects_with_target'] = isinstance(v, list) and all(isinstance(e, dict) and 'target' in e for e in v)
+            except ValueError:
+                res['json_len'] = -2
+                res['elements_are_objects_with_target'] = False
+        else:
+            res['rulers'] = printed.count('-' * 80)
+        return res
+
+    def check(self, inp, obs):
+        r = obs['ret']
+        yield 'run-completes', not isinstance(r, Exc)
+        if isinstance(r, Exc):
+            return
+        yield 'every-listed-target-dialled', obs['ndialled'] == self.n
+        if self.json:
+            yield 'stdout-is-one-json-array-with-one-element-per-target', obs['json_len'] == self.n
+            yield 'each-json-element-names-its-target', obs['elements_are_objects_with_target']
+        else:
+            yield 'blocks-separated-by-rulers', obs['rulers'] == self.n - 1
+        yield 'exit-status-ranked-max', r == 1
+
+
 def reader_exits():
     """does the packet reader (still) terminate the process itself?  (AST of the current source)"""
     import ast, os
@@ -359,6 +418,10 @@ def tasks(tier):
         for pos in (0, 1):
             for json in (False, True):
                 T.append(RealRun(bad, pos, json))
+    for n in (1, 2, 3):
+        for json in (False, True):
+            T.append(FileRun(n, json))
+    T.append(FileRun(1, True, True))
     for bad in ('refused', 'early-close', 'probe-garbage'):
         T.append(RealRun(bad, 1, True, verbose=True))      # (in text mode -v status lines between the blocks are intended)
         T.append(RealRun(bad, 0, True, verbose=True))
@@ -373,6 +436,8 @@ def harness_by_name(name, params):
         return Aggregate(p['n'], p['order'], p['json'])
     if k == 'containment':
         return Containment(p['esc'])
+    if k == 'filerun':
+        return FileRun(p['n'], p['json'], p.get('ported', False))
     if k == 'realrun':
         return RealRun(p['bad'], p['pos'], p['json'], p.get('verbose', False), p.get('colors', False))
     raise KeyError(name)
